@@ -236,7 +236,7 @@ func movetext(toks []string, r *Rng, style int, decorate bool) string {
 			case 2:
 				sb.WriteString(" $" + fmt.Sprint(1+r.Intn(139)))
 			case 3:
-				sb.WriteString(" {" + []string{"good move", "book", "a novelty, see game 12", "+0.35/12", "White is better"}[r.Intn(5)] + "}")
+				sb.WriteString(" {" + []string{"good move", "book", "a novelty, see game 12", "+0.35/12", "White is better", "a) the main line", "better than (see game 3", "b) also 5... a6 :)", "1) develop 2) castle (both sides)"}[r.Intn(9)] + "}")
 			case 4:
 				// a variation (possibly nested) which must be ignored
 				sb.WriteString(" (" + fmt.Sprint(i/2+1) + "... a6 " + fmt.Sprint(i/2+2) + ". h3 (" + fmt.Sprint(i/2+2) + ". g3 g6) h6)")
